@@ -96,6 +96,10 @@ class RefChain:
             if cur.parent is None:
                 break
             cur = cur.parent
+        # below a trusted root: the never-validated heights of THAT root's own history
+        per_root = getattr(self, 'filler_ts_by_root', {}).get(cur.id if cur is not None else None)
+        if per_root is not None:
+            return per_root(h)
         return self.filler_ts(h)
 
     def expected_target(self, parent: RefBlock, ts: int) -> int:
